@@ -143,13 +143,21 @@ func execEngine(args []string) string {
 		if !ok || !ok2 {
 			return "res=badpos"
 		}
+		if len(args) > 3 {
+			// evaluate another position first through the public entry point (fills the cache)
+			if pre, ok3 := posFromArg(args[3]); ok3 {
+				evaluation.Evaluation(pre)
+			}
+		}
 		var raw, mir int16
 		if guard(func() { raw = evaluation.VerifEvalUncached(p); mir = evaluation.VerifEvalUncached(q) }) {
 			return "raw=panic mirror=panic"
 		}
 		mf, _ := hexDecode(args[2])
 		bound := int(raw) < int(evaluation.INF)-100 && int(raw) > -int(evaluation.INF)+100
-		return fmt.Sprintf("raw=%d mirror=%d mirrorfen=%s p.mirror=%s p.bound=%s", raw, mir, fenField(string(mf)), b2s(raw == mir), b2s(bound))
+		// the public entry point (with whatever the cache holds from earlier operations) must be symmetric too
+		pub, pubm := evaluation.Evaluation(p), evaluation.Evaluation(q)
+		return fmt.Sprintf("raw=%d mirror=%d mirrorfen=%s p.mirror=%s p.bound=%s p.mirrorpub=%s", raw, mir, fenField(string(mf)), b2s(raw == mir), b2s(bound), b2s(pub == pubm))
 	case "evalc":
 		evaluation.VerifResetCache()
 		var scores, raws []string
@@ -456,7 +464,7 @@ func forEachPosition(rng *Rng, n int, corpusPath string, o *Out, visit func(p *p
 		case 0, 1, 2, 3:
 			fen := ps.randomMaterial()
 			p, err := position.NewFromFen(fen)
-			if err != nil || p.IsInCheck(types.SwitchColor(p.SideToMove)) {
+			if err != nil || inCheckSafe(p, types.SwitchColor(p.SideToMove)) {
 				continue
 			}
 			o.Stat("src_random_material")
@@ -492,6 +500,13 @@ func evalOps(o *Out, seed uint64, n int, corpus string) {
 		fen := p.ToFen()
 		o.Run("eval " + hexOf(fen) + " " + hexOf(mirrorFen(fen)))
 		o.Stat(fmt.Sprintf("pieces_%02d", p.AllPieces.PopulationCount()))
+		if rng.Intn(3) == 0 {
+			// the same placement with the half-move clock on both sides of the fifty-move boundary, one after the other
+			pair := [][2]string{{"100", "99"}, {"99", "100"}, {"100", "0"}, {"101", "100"}, {"0", "100"}, {"100", "42"}}[rng.Intn(6)]
+			// first the placement with one clock (only this one, through the public entry point), then position and mirror with the other clock
+			f1, f2 := withField(fen, 4, pair[0]), withField(fen, 4, pair[1])
+			o.Run("eval " + hexOf(f2) + " " + hexOf(mirrorFen(f2)) + " " + hexOf(f1))
+		}
 	})
 }
 
@@ -517,6 +532,16 @@ func evalcOps(o *Out, seed uint64, n int, corpus string) {
 			fen, withField(fen, 4, "99"), withField(fen, 4, "100"), withField(fen, 4, "3"), withField(fen, 4, "120"), withField(fen, 4, "0"),
 			withField(fen, 2, "-"), withField(withField(fen, 2, "-"), 4, "101"), withField(fen, 3, "-"),
 			pool[rng.Intn(len(pool))], pool[rng.Intn(len(pool))],
+		}
+		// the same position without one of its pieces (differs in exactly one square), including the corner squares
+		for _, s := range []int{63, 56, 7, 0, rng.Intn(64), rng.Intn(64)} {
+			pc := p.PiecesBoard[s]
+			if pc == types.NO_PIECE || pc.Type() == types.KING {
+				continue
+			}
+			q := *p
+			q.DeletePiece(uint8(s))
+			variants = append(variants, withField(withField(q.ToFen(), 2, "-"), 3, "-"))
 		}
 		k := 4 + rng.Intn(12)
 		for i := 0; i < k; i++ {
@@ -905,7 +930,7 @@ func seeBatteryOps(o *Out, seed uint64, n int) {
 		}
 		fen := fmt.Sprintf("%s %s - - 0 1", sb.String(), side)
 		p, err := position.NewFromFen(fen)
-		if err != nil || !checkShape(p) || p.IsInCheck(types.SwitchColor(p.SideToMove)) {
+		if err != nil || !checkShape(p) || inCheckSafe(p, types.SwitchColor(p.SideToMove)) {
 			continue
 		}
 		h := hexOf(fen)
